@@ -2,8 +2,9 @@
 import json, os, sys, time, hashlib, threading
 
 ROOT = os.path.dirname(os.path.dirname(os.path.abspath(__file__)))
-EVID = os.path.join(ROOT, "evidence")
-REPLAYS = os.path.join(ROOT, "replays")
+_OUT = os.environ.get("VERIF_OUT", ROOT)     # seeded-defect runs redirect evidence/replays away from /verif
+EVID = os.path.join(_OUT, "evidence")
+REPLAYS = os.path.join(_OUT, "replays")
 KNOWN = os.path.join(ROOT, "known_findings.json")
 NCPU = int(os.environ.get("VERIF_JOBS", str(os.cpu_count() or 4)))
 
